@@ -19,6 +19,7 @@ import (
 	"verif/harness/internal/c14"
 	"verif/harness/internal/c16"
 	"verif/harness/internal/c17"
+	"verif/harness/internal/c18"
 	"verif/harness/internal/c19"
 	"verif/harness/internal/c20"
 	"verif/harness/internal/callback"
@@ -63,6 +64,8 @@ func main() {
 		err = c16.Run(*out, *tier, *seed)
 	case "C17":
 		err = c17.Run(*out, *tier, *seed)
+	case "C18":
+		err = c18.Run(*out, *tier, *seed)
 	case "C19":
 		err = c19.Run(*out, *tier, *seed)
 	case "C20":
